@@ -17,6 +17,7 @@
 package compose
 
 import "fmt"
+import "github.com/cloudwego/eino/internal/verifhook"
 
 func pregelChannelBuilder(_ []string, _ []string, _ func() any, _ func() streamReader) channel {
 	return &pregelChannel{Values: make(map[string]any)}
@@ -54,6 +55,13 @@ func (ch *pregelChannel) get(_ bool) (any, bool, error) {
 	values := make([]any, 0, len(ch.Values))
 	for _, v := range ch.Values {
 		values = append(values, v)
+	}
+	if verifhook.On {
+		values = values[:0]
+		for _, k := range verifhook.SortedKeys(ch.Values) {
+			values = append(values, ch.Values[k])
+		}
+		verifhook.Order(len(values), nil, func(i, j int) { values[i], values[j] = values[j], values[i] })
 	}
 
 	if len(values) == 1 {
